@@ -228,6 +228,9 @@ structure Agree (T N : Lib) : Prop where
   cat0 : ∀ A B, T.cat0 A B = N.cat0 A B
   tile0 : ∀ R k, T.tile0 R k = N.tile0 R k
 
+inductive Kind | int | real
+deriving DecidableEq, Repr
+
 /-! ### numpy's own ufunc semantics (the reference side of the comparison) -/
 
 /-- a concrete operand: a Python int (literal) or an integer tensor / ndarray -/
@@ -259,17 +262,17 @@ def npReduce : AOp → Rows → Option Flat
   | .max, R => (maxList R.rows.flatten).map Flat.scalar
   | .div, _ => none
 
-def AOp.eop : AOp → Option EOp
+/-- the operators whose `accumulate` the verbs call (`&\` `|\` go through
+    itertools.accumulate, `%\` is real) -/
+def AOp.arith : AOp → Option EOp
   | .add => some .add
   | .sub => some .sub
   | .mul => some .mul
-  | .min => some .min
-  | .max => some .max
-  | .div => none
+  | _ => none
 
 /-- np.<ufunc>.accumulate(a) along axis 0 -/
 def npAccumulate (op : AOp) (R : Rows) : Option Rows :=
-  match op.eop, R.rows with
+  match op.arith, R.rows with
   | none, _ => none
   | some _, [] => some R
   | some e, r :: rs => some ⟨R.inner, scanRows e r rs⟩
@@ -344,6 +347,12 @@ def facadeAccumulate (L : Lib) (op : AOp) (R : Rows) : Option Rows :=
   | .sub =>
     (L.row R 0).bind fun a0 => (accLoop L .sub R (R.rows.length - 1) 1 a0).bind L.stack
   | .min | .max | .div => none
+
+/-- kind of `%\a` for an operand of kind `k` with `n` rows: np.divide.accumulate is real
+    throughout; the torch loop stacks the untouched first row, so a single integer row stays
+    integer (known finding, not repaired) -/
+def npScanDivKind (_n : Nat) (_k : Kind) : Kind := .real
+def facadeScanDivKind (n : Nat) (k : Kind) : Kind := if n = 1 then k else .real
 
 /-- TorchBackendProvider.floor_to_int (repaired): integer tensors are returned as they are -/
 def floorToInt (L : Lib) (a : Arg) : Option Flat := some (L.toInt a.lift)
@@ -428,7 +437,7 @@ def Provider.guard (P : Provider) : GP where
   floorToInt a := if a.wf then (P.floorToInt a).filter Flat.wf else none
   power a b := if a.wf && b.wf then (P.power a b).filter Flat.wf else none
   reduce op R := if R.wf then (P.reduce op R).filter Flat.wf else none
-  accumulate op R := if R.wf then (P.accumulate op R).filter Rows.wf else none
+  accumulate op R := if R.wf && !R.rows.isEmpty then (P.accumulate op R).filter Rows.wf else none
   stack ts := if ts.all Flat.wf then (P.stack ts).filter Rows.wf else none
   row R i := if R.wf then (P.row R i).filter Flat.wf else none
   flip0 R := if R.wf then (some (P.flip0 R)).filter Rows.wf else none
@@ -437,9 +446,6 @@ def Provider.guard (P : Provider) : GP where
   tile0 R k := if R.wf then (some (P.tile0 R k)).filter Rows.wf else none
 
 /-! ### values and the numeric core grammar -/
-
-inductive Kind | int | real
-deriving DecidableEq, Repr
 
 inductive V
   | py (n : Int)                       -- Python int
@@ -545,8 +551,22 @@ def dyad (G : GP) (op : DOp) (a b : V) : Res :=
   | .pow =>
     match a.arg, b.arg with
     | some x, some y =>
-      if y.lift.data.all (fun e => decide (0 ≤ e)) then ofFlat (G.power x y) "power"
-      else .oom "power:negative-exponent"
+      if !y.lift.data.all (fun e => decide (0 ≤ e)) then .oom "power:negative-exponent"
+      else if !a.isTensor ∧ b.shape ≠ [] then
+        -- a Python-scalar base with an array exponent: under torch the result is a numpy
+        -- ndarray (numpy.power), which later torch calls may reject — outside the model
+        .oom "power:scalar-base-array-exponent"
+      else
+        match G.power x y with
+        | none => .oom "power"
+        | some r =>
+          if r.data.any (fun v => decide (2 ^ 31 ≤ v.natAbs)) then .oom "power:beyond-2^31"
+          else if !a.isTensor ∧ b.shape = [] then
+            -- numpy.power(float(a), b) then int(): a Python int under both backends
+            match r.data with
+            | [v] => .ok (.py v)
+            | _ => .oom "power"
+          else .ok (.tn r)
     | _, _ => .oom "power:real-operand"
   | _ =>
     match op.eop with
@@ -565,6 +585,10 @@ def dyad (G : GP) (op : DOp) (a b : V) : Res :=
           | _ => .oom "ufunc"
         else ofFlat (G.ufunc e x y) "ufunc"
       | _, _ =>
+        if (op = .lt ∨ op = .gt) ∧ (a.isNpy ∨ b.isNpy ∨ a = .ab .int [] ∨ b = .ab .int []) then
+          -- an integer scalar computed from reals may be an np.int64 (see below)
+          .oom "one-sided:torch-less-greater-on-numpy-scalar"
+        else
         match bshape a.shape b.shape with
         | some s => .ok (.ab (if isCmp op then .int else joinKind a.kind b.kind) s)
         | none => .oom "broadcast"
@@ -699,7 +723,8 @@ def takeV (G : GP) (n : Int) (t : Flat) (R : Rows) : Res :=
     | some S => .ok (.tn S.flat)
     | none => .oom "slice"
 
-def den (P : Provider) : Expr → List V → Res
+/-- the denotation of a program, given the (guarded) provider calls -/
+def denG (G : GP) : Expr → List V → Res
   | .var i, env => match env[i]? with
     | some v => .ok v
     | none => .oom "unbound"
@@ -707,48 +732,48 @@ def den (P : Provider) : Expr → List V → Res
   | .rlit, _ => .ok (.ab .real [])
   | .tlit t, _ => if t.wf then .ok (.tn t) else .oom "literal"
   | .dy op l r, env =>
-    match den P l env, den P r env with
-    | .ok a, .ok b => dyad P.guard op a b
+    match denG G l env, denG G r env with
+    | .ok a, .ok b => dyad G op a b
     | .oom w, _ => .oom w
     | _, .oom w => .oom w
     | _, _ => .oom "undefined-operand"
   | .neg e, env =>
-    match den P e env with
-    | .ok (.py n) => ofFlat (P.guard.negative (.scalar n)) "neg"
-    | .ok (.npy n) => ofFlat (P.guard.negative (.scalar n)) "neg"
-    | .ok (.tn t) => ofFlat (P.guard.negative t) "neg"
+    match denG G e env with
+    | .ok (.py n) => ofFlat (G.negative (.scalar n)) "neg"
+    | .ok (.npy n) => ofFlat (G.negative (.scalar n)) "neg"
+    | .ok (.tn t) => ofFlat (G.negative t) "neg"
     | .ok (.ab k s) => .ok (.ab k s)
     | .undef => .oom "undefined-operand"
     | .oom w => .oom w
   | .floor e, env =>
-    match den P e env with
-    | .ok (.py n) => ofFlat (P.guard.floorToInt (.py n)) "floor"
-    | .ok (.npy n) => ofFlat (P.guard.floorToInt (.py n)) "floor"
-    | .ok (.tn t) => ofFlat (P.guard.floorToInt (.tn t)) "floor"
+    match denG G e env with
+    | .ok (.py n) => ofFlat (G.floorToInt (.py n)) "floor"
+    | .ok (.npy n) => ofFlat (G.floorToInt (.py n)) "floor"
+    | .ok (.tn t) => ofFlat (G.floorToInt (.tn t)) "floor"
     | .ok (.ab _ s) => .ok (.ab .int s)
     | .undef => .oom "undefined-operand"
     | .oom w => .oom w
   | .over op e, env =>
-    match den P e env with
-    | .ok a => overV P.guard op a
+    match denG G e env with
+    | .ok a => overV G op a
     | .undef => .oom "undefined-operand"
     | .oom w => .oom w
   | .scan op e, env =>
-    match den P e env with
-    | .ok a => scanV P.guard op a
+    match denG G e env with
+    | .ok a => scanV G op a
     | .undef => .oom "undefined-operand"
     | .oom w => .oom w
   | .each body e, env =>
     let x := env.take 3
-    match den P e env with
-    | .ok (.py n) => den P body (x ++ [.py n])
-    | .ok (.npy n) => den P body (x ++ [.npy n])
+    match denG G e env with
+    | .ok (.py n) => denG G body (x ++ [.py n])
+    | .ok (.npy n) => denG G body (x ++ [.npy n])
     | .ok (.ab k s) =>
       match s with
-      | [] => den P body (x ++ [.ab k []])
+      | [] => denG G body (x ++ [.ab k []])
       | 0 :: _ => .ok (.ab k s)
       | n :: rest =>
-        match den P body (x ++ [.ab k rest]) with
+        match denG G body (x ++ [.ab k rest]) with
         | .ok (.ab k' s') => .ok (.ab k' (n :: s'))
         | .ok (.py _) => .ok (.ab .int [n])
         | .ok (.npy _) => .ok (.ab .int [n])
@@ -757,38 +782,40 @@ def den (P : Provider) : Expr → List V → Res
         | .oom w => .oom w
     | .ok (.tn t) =>
       match t.view with
-      | none => den P body (x ++ [.tn t])
+      | none => denG G body (x ++ [.tn t])
       | some R =>
         if R.rows = [] then .ok (.tn t)
-        else if R.wf then collect P.guard (R.flats.map fun r => den P body (x ++ [.tn r]))
+        else if R.wf then collect G (R.flats.map fun r => denG G body (x ++ [.tn r]))
         else .oom "wf"
     | .undef => .oom "undefined-operand"
     | .oom w => .oom w
   | .at e i, env =>
-    match den P e env, den P i env with
+    match denG G e env, denG G i env with
     | .ok (.tn t), .ok iv =>
       match t.view with
       | none => .oom "index-atom"
       | some R =>
         match iv with
-        | .py n => rowV P.guard R R.rows.length n
-        | .npy n => rowV P.guard R R.rows.length n
+        | .py n => rowV G R R.rows.length n
+        | .npy n => rowV G R R.rows.length n
         | .tn it =>
           if it.shape = [] then
             match it.data with
-            | [n] => rowV P.guard R R.rows.length n
+            | [n] => rowV G R R.rows.length n
             | _ => .oom "index"
           else if it.shape.length = 1 then
             if it.data = [] then .oom "empty-index"
-            else collect P.guard (it.data.map fun n => rowV P.guard R R.rows.length n)
+            else collect G (it.data.map fun n => rowV G R R.rows.length n)
           else .oom "index-rank"
         | .ab _ _ => .oom "index-real"
     | .ok (.ab k s), .ok iv =>
+      let inb (len : Nat) (n : Int) : Bool := decide (-(len : Int) ≤ n ∧ n < len)
       match s, iv with
-      | _ :: rest, .py _ => .ok (.ab k rest)
-      | _ :: rest, .npy _ => .ok (.ab k rest)
-      | _ :: rest, .tn it =>
-        if it.shape = [] then .ok (.ab k rest)
+      | len :: rest, .py n => if inb len n then .ok (.ab k rest) else .oom "index"
+      | len :: rest, .npy n => if inb len n then .ok (.ab k rest) else .oom "index"
+      | len :: rest, .tn it =>
+        if !it.data.all (inb len) then .oom "index"
+        else if it.shape = [] then .ok (.ab k rest)
         else if it.shape.length = 1 ∧ it.data ≠ [] then .ok (.ab k (it.data.length :: rest))
         else .oom "index-rank"
       | _, _ => .oom "index"
@@ -796,11 +823,11 @@ def den (P : Provider) : Expr → List V → Res
     | _, .oom w => .oom w
     | _, _ => .oom "index"
   | .take n e, env =>
-    match den P e env with
+    match denG G e env with
     | .ok (.tn t) =>
       match t.view with
       | none => .oom "take-atom"
-      | some R => takeV P.guard n t R
+      | some R => takeV G n t R
     | .ok (.ab k s) =>
       match s with
       | len :: rest => if len = 0 then .ok (.ab k s) else .ok (.ab k (n.natAbs :: rest))
@@ -810,13 +837,13 @@ def den (P : Provider) : Expr → List V → Res
     | .undef => .oom "undefined-operand"
     | .oom w => .oom w
   | .drop n e, env =>
-    match den P e env with
+    match denG G e env with
     | .ok (.tn t) =>
       match t.view with
       | none => .oom "drop-atom"
       | some R =>
         let len := R.rows.length
-        let r := if 0 ≤ n then P.guard.slice0 R (clampIdx len n) len else P.guard.slice0 R 0 (clampIdx len n)
+        let r := if 0 ≤ n then G.slice0 R (clampIdx len n) len else G.slice0 R 0 (clampIdx len n)
         match r with
         | some S => .ok (.tn S.flat)
         | none => .oom "slice"
@@ -829,12 +856,12 @@ def den (P : Provider) : Expr → List V → Res
     | .undef => .oom "undefined-operand"
     | .oom w => .oom w
   | .rev e, env =>
-    match den P e env with
+    match denG G e env with
     | .ok (.tn t) =>
       match t.view with
       | none => .ok (.tn t)                                     -- not iterable: returned unchanged
       | some R =>
-        match P.guard.flip0 R with
+        match G.flip0 R with
         | some S => .ok (.tn S.flat)
         | none => .oom "flip"
     | .ok (.ab k s) => .ok (.ab k s)
@@ -843,7 +870,7 @@ def den (P : Provider) : Expr → List V → Res
     | .undef => .oom "undefined-operand"
     | .oom w => .oom w
   | .join l r, env =>
-    match den P l env, den P r env with
+    match denG G l env, denG G r env with
     | .ok a, .ok b =>
       match a.arg, b.arg with
       | some x, some y =>
@@ -856,8 +883,8 @@ def den (P : Provider) : Expr → List V → Res
         match side x, side y with
         | some A, some B =>
           if A.inner = B.inner then
-            if x.lift.shape ≠ [] ∧ A.rows = [] then .ok b
-            else match P.guard.cat0 A B with
+            if x.lift.shape ≠ [] ∧ A.rows = [] ∧ y.lift.shape ≠ [] then .ok b
+            else match G.cat0 A B with
               | some S => .ok (.tn S.flat)
               | none => .oom "cat"
           else .oom "join-object"
@@ -865,11 +892,18 @@ def den (P : Provider) : Expr → List V → Res
       | _, _ =>
         let sh (s : List Nat) : List Nat := if s = [] then [1] else s
         match sh a.shape, sh b.shape with
-        | n :: ra, m :: rb => if ra = rb then .ok (.ab (joinKind a.kind b.kind) ((n + m) :: ra)) else .oom "join-object"
+        | n :: ra, m :: rb =>
+          if n = 0 ∧ ra = [] ∧ b.shape ≠ [] then .ok b         -- two arrays, len(a) == 0: b is returned
+          else if n = 0 ∧ ra = [] then .ok (.ab b.kind [1])
+          else if m = 0 ∧ rb = [] ∧ ra = [] then .ok (.ab a.kind [n])
+          else if ra = rb then .ok (.ab (joinKind a.kind b.kind) ((n + m) :: ra)) else .oom "join-object"
         | _, _ => .oom "join"
     | .oom w, _ => .oom w
     | _, .oom w => .oom w
     | _, _ => .oom "undefined-operand"
+
+/-- the denotation of a program under a provider -/
+def den (P : Provider) (e : Expr) (env : List V) : Res := denG P.guard e env
 
 /-! ### driver (line protocol) -/
 
@@ -1026,6 +1060,9 @@ def prim (name : String) (args : List Flat) : String :=
   | ["npReduce", o], _ => match aop o with
     | some e => rows1 fun R => showOF (npReduce e R)
     | none => "bad-op"
+  | ["scanRows", "min"], _ => rows1 fun R => match R.rows with
+    | [] => "none"
+    | r :: rs => showFlat (Rows.flat ⟨R.inner, scanRows .min r rs⟩)
   | ["npAccumulate", o], _ => match aop o with
     | some e => rows1 fun R => showOR (npAccumulate e R)
     | none => "bad-op"
